@@ -1,0 +1,45 @@
+//go:build verif
+
+package c07
+
+import (
+	"github.com/lni/dragonboat/v4/config"
+	"github.com/lni/dragonboat/v4/internal/rsm"
+	"github.com/lni/dragonboat/v4/internal/vfs"
+	sm "github.com/lni/dragonboat/v4/statemachine"
+)
+
+// Re-exports (already exported by internal/rsm) that let the C07 harness drive
+// a real rsm.StateMachine over an on disk state machine: restart, recovery
+// from a snapshot record and replay of the log. Add-only; -tags verif only.
+
+type (
+	// StateMachine is rsm.StateMachine.
+	StateMachine = rsm.StateMachine
+	// Task is rsm.Task.
+	Task = rsm.Task
+	// INode is rsm.INode.
+	INode = rsm.INode
+	// ISnapshotter is rsm.ISnapshotter.
+	ISnapshotter = rsm.ISnapshotter
+	// IStreamable is rsm.IStreamable.
+	IStreamable = rsm.IStreamable
+	// ISavable is rsm.ISavable.
+	ISavable = rsm.ISavable
+	// ILoadable is rsm.ILoadable.
+	ILoadable = rsm.ILoadable
+	// IRecoverable is rsm.IRecoverable.
+	IRecoverable = rsm.IRecoverable
+	// SSMeta is rsm.SSMeta.
+	SSMeta = rsm.SSMeta
+	// SSEnv is rsm.SSEnv.
+	SSEnv = rsm.SSEnv
+)
+
+// NewOnDiskStateMachine wraps a user on disk state machine the way
+// NodeHost.StartOnDiskReplica does and builds the rsm.StateMachine on it.
+func NewOnDiskStateMachine(cfg config.Config, u sm.IOnDiskStateMachine,
+	snapshotter ISnapshotter, node INode) *StateMachine {
+	msm := rsm.NewNativeSM(cfg, rsm.NewOnDiskStateMachine(u), make(chan struct{}))
+	return rsm.NewStateMachine(msm, snapshotter, cfg, node, vfs.NewMemFS())
+}
